@@ -96,10 +96,10 @@ func c04RunSched(t *testing.T, seed int64, cs c04Sched) (what string, steps int)
 			}
 		}
 		for _, p := range procs {
-			w.Ctl.Gate(p.label, false)
 			if !p.started {
 				start(p)
 			}
+			w.Ctl.Gate(p.label, false)
 		}
 		for i := 0; i < 50; i++ {
 			moved := false
@@ -115,6 +115,12 @@ func c04RunSched(t *testing.T, seed int64, cs c04Sched) (what string, steps int)
 			}
 		}
 		time.Sleep(2 * time.Second) // MaxWait of a pull that found nothing
+		synctest.Wait()
+		for _, p := range procs {
+			if w.Ctl.Where(p.label) != "" {
+				w.Ctl.Release(p.label)
+			}
+		}
 		synctest.Wait()
 		for _, p := range procs {
 			select {
